@@ -70,17 +70,29 @@ def generate():
         body += _lean_table("fgTable", _table(cls, "_foreground", consts), "`AnsiParser._foreground`")
         body += _lean_table("bgTable", _table(cls, "_background", consts), "`AnsiParser._background`")
 
-        # ansi_escape: {name: "\033[%dm" % code for name, code in codes.items()}
+        # ansi_escape(codes): {k: "<template>" % v for (k, v) in codes.items()}  (any names)
         fn = find_func(tree, "ansi_escape")
-        if [a.arg for a in fn.args.args] != ["codes"] or len(fn.body) != 1 or not isinstance(fn.body[0], ast.Return):
+        rets = [n for n in ast.walk(fn) if isinstance(n, ast.Return)]
+        if len(fn.args.args) != 1 or len(rets) != 1:
             raise Unsupported("ansi_escape shape")
-        dc = fn.body[0].value
-        if not (isinstance(dc, ast.DictComp) and ast.unparse(dc.key) == "name" and isinstance(dc.value, ast.BinOp)
-                and isinstance(dc.value.op, ast.Mod) and isinstance(dc.value.left, ast.Constant)
-                and isinstance(dc.value.left.value, str) and ast.unparse(dc.value.right) == "code"
-                and len(dc.generators) == 1 and ast.unparse(dc.generators[0].target) == "(name, code)"
-                and ast.unparse(dc.generators[0].iter) == "codes.items()" and not dc.generators[0].ifs):
-            raise Unsupported("ansi_escape body: " + ast.unparse(dc))
+        par = fn.args.args[0].arg
+        dc = rets[0].value
+        if isinstance(dc, ast.Name):        # result = {...}; return result
+            src = [n.value for n in ast.walk(fn) if isinstance(n, ast.Assign) and len(n.targets) == 1
+                   and isinstance(n.targets[0], ast.Name) and n.targets[0].id == dc.id]
+            dc = src[0] if len(src) == 1 else dc
+        ok = isinstance(dc, ast.DictComp) and len(dc.generators) == 1 and not dc.generators[0].ifs
+        if ok:
+            g = dc.generators[0]
+            ok = isinstance(g.target, ast.Tuple) and len(g.target.elts) == 2 and all(isinstance(e, ast.Name) for e in g.target.elts) \
+                and ast.unparse(g.iter) == par + ".items()"
+        if ok:
+            kname, vname = g.target.elts[0].id, g.target.elts[1].id
+            ok = isinstance(dc.key, ast.Name) and dc.key.id == kname and isinstance(dc.value, ast.BinOp) \
+                and isinstance(dc.value.op, ast.Mod) and isinstance(dc.value.left, ast.Constant) \
+                and isinstance(dc.value.left.value, str) and ast.unparse(dc.value.right) in (vname, "(%s,)" % vname)
+        if not ok:
+            raise Unsupported("ansi_escape body: " + ast.unparse(rets[0].value))
         tmpl = dc.value.left.value
         if tmpl.count("%d") != 1 or tmpl.replace("%d", "").count("%"):
             raise Unsupported("ansi_escape template %r" % tmpl)
@@ -93,7 +105,7 @@ def generate():
         for node in cls.body:
             if isinstance(node, ast.Assign) and ast.unparse(node.targets[0]) == "_regex_tag":
                 v = node.value
-                if isinstance(v, ast.Call) and ast.unparse(v.func) == "re.compile" and len(v.args) == 1 \
+                if isinstance(v, ast.Call) and ast.unparse(v.func) in ("re.compile", "compile") and len(v.args) == 1 \
                         and not v.keywords and isinstance(v.args[0], ast.Constant) and isinstance(v.args[0].value, str):
                     rx = v.args[0].value
         if rx is None:
@@ -104,11 +116,12 @@ def generate():
         feed = find_func(tree, "feed", cls="AnsiParser")
         closing, level_tags = [], []
         for node in ast.walk(feed):
-            if isinstance(node, ast.Tuple) and len(node.elts) == 2 and ast.unparse(node.elts[0]) == "TokenType.CLOSING" \
+            if isinstance(node, ast.Tuple) and len(node.elts) == 2 and ast.unparse(node.elts[0]).split(".")[-1] == "CLOSING" \
                     and isinstance(node.elts[1], ast.Constant) and isinstance(node.elts[1].value, str):
                 closing.append(node.elts[1].value)
-            if isinstance(node, ast.Compare) and ast.unparse(node.left) == "tag" and len(node.ops) == 1 \
-                    and isinstance(node.ops[0], ast.In) and isinstance(node.comparators[0], (ast.Set, ast.Tuple, ast.List)):
+            if isinstance(node, ast.Compare) and isinstance(node.left, ast.Name) and len(node.ops) == 1 \
+                    and isinstance(node.ops[0], ast.In) and isinstance(node.comparators[0], (ast.Set, ast.Tuple, ast.List)) \
+                    and node.comparators[0].elts and all(isinstance(e, ast.Constant) for e in node.comparators[0].elts):
                 for e in node.comparators[0].elts:
                     if not (isinstance(e, ast.Constant) and isinstance(e.value, str)):
                         raise Unsupported("level tag set element")
@@ -124,18 +137,34 @@ def generate():
         ga = find_func(tree, "_get_ansicode", cls="AnsiParser")
         fgbg, limits, tmpls, hexrx, prefixes = None, [], [], [], []
         for node in ast.walk(ga):
-            if isinstance(node, ast.IfExp) and ast.unparse(node.test).replace("'", '"') == 'st == "fg"' \
-                    and isinstance(node.body, ast.Constant) and isinstance(node.orelse, ast.Constant):
-                fgbg = (node.body.value, node.orelse.value)
+            # `sel = "38" if layer == "fg" else "48"` as a conditional expression or as an if/else assignment,
+            # whatever the local names; `== "bg"` / `!=` forms are read accordingly
+            cand = None
+            if isinstance(node, ast.IfExp) and isinstance(node.body, ast.Constant) and isinstance(node.orelse, ast.Constant):
+                cand = (node.test, node.body.value, node.orelse.value)
+            if isinstance(node, ast.If) and len(node.body) == 1 and len(node.orelse) == 1 \
+                    and isinstance(node.body[0], ast.Assign) and isinstance(node.orelse[0], ast.Assign) \
+                    and ast.unparse(node.body[0].targets[0]) == ast.unparse(node.orelse[0].targets[0]) \
+                    and isinstance(node.body[0].value, ast.Constant) and isinstance(node.orelse[0].value, ast.Constant):
+                cand = (node.test, node.body[0].value.value, node.orelse[0].value.value)
+            if cand and isinstance(cand[0], ast.Compare) and len(cand[0].ops) == 1 and isinstance(cand[0].left, ast.Name) \
+                    and isinstance(cand[0].comparators[0], ast.Constant) and cand[0].comparators[0].value in ("fg", "bg") \
+                    and isinstance(cand[0].ops[0], (ast.Eq, ast.NotEq)) and isinstance(cand[1], str) and isinstance(cand[2], str):
+                flip = (cand[0].comparators[0].value == "bg") != isinstance(cand[0].ops[0], ast.NotEq)
+                if fgbg is not None:
+                    raise Unsupported("two fg/bg selector expressions")
+                fgbg = (cand[2], cand[1]) if flip else (cand[1], cand[2])
             if isinstance(node, ast.Compare) and len(node.ops) == 1 and isinstance(node.ops[0], ast.LtE) \
                     and isinstance(node.comparators[0], ast.Constant) and ast.unparse(node.left).startswith("int("):
                 limits.append(node.comparators[0].value)
             if isinstance(node, ast.BinOp) and isinstance(node.op, ast.Mod) and isinstance(node.left, ast.Constant) \
                     and isinstance(node.left.value, str):
                 tmpls.append(node.left.value)
-            if isinstance(node, ast.Call) and ast.unparse(node.func) == "re.match" and isinstance(node.args[0], ast.Constant):
+            if isinstance(node, ast.Call) and ast.unparse(node.func) in ("re.match", "match") and node.args \
+                    and isinstance(node.args[0], ast.Constant):
                 hexrx.append(node.args[0].value)
-            if isinstance(node, ast.Call) and ast.unparse(node.func) == "tag.startswith" and isinstance(node.args[0], ast.Constant):
+            if isinstance(node, ast.Call) and isinstance(node.func, ast.Attribute) and node.func.attr == "startswith" \
+                    and isinstance(node.func.value, ast.Name) and len(node.args) == 1 and isinstance(node.args[0], ast.Constant):
                 prefixes.append(node.args[0].value)
         if fgbg is None or not all(isinstance(x, str) for x in fgbg):
             raise Unsupported("fg/bg selector codes not found")
@@ -161,91 +190,171 @@ def generate():
 
 
 # ----------------------------------------------------------------------------- _handler.py / _logger.py shapes
-def _resolve_name(stmts, idx, name):
-    """source of the value last assigned to `name` before statement idx of the same block"""
-    for st in reversed(stmts[:idx]):
-        if isinstance(st, ast.Assign) and len(st.targets) == 1 and isinstance(st.targets[0], ast.Name) \
-                and st.targets[0].id == name:
-            return ast.unparse(st.value)
-    return None
+import copy
 
 
-def _blocks(node):
-    """every statement list inside node"""
-    for n in ast.walk(node):
-        for attr in ("body", "orelse", "finalbody"):
-            b = getattr(n, attr, None)
-            if isinstance(b, list) and b and isinstance(b[0], ast.stmt):
-                yield b
+class _Subst(ast.NodeTransformer):
+    def __init__(self, mapping):
+        self.mapping = mapping
+
+    def visit_Name(self, node):
+        if node.id in self.mapping and isinstance(node.ctx, ast.Load):
+            return copy.deepcopy(self.mapping[node.id])
+        return node
+
+
+def _normalise(fn, canon_params):
+    """A copy of the function with (1) its parameters renamed to canonical names by position and (2) every local
+    that is assigned ONE value expression in the whole function (possibly at several places, e.g. in each branch)
+    and is not a parameter replaced by that expression wherever it is read – so that renamed locals, extracted
+    aliases (`core = self._core`) and renamed parameters leave the shapes below unchanged.  Locals assigned
+    different expressions, augmented/tuple/loop targets are left alone."""
+    fn = copy.deepcopy(fn)
+    params = [a.arg for a in fn.args.args]
+    if len(params) != len(canon_params):
+        raise Unsupported("%s: %d parameters, expected %d" % (fn.name, len(params), len(canon_params)))
+    ren = {o: ast.Name(id=n, ctx=ast.Load()) for o, n in zip(params, canon_params) if o != n}
+    for a, n in zip(fn.args.args, canon_params):
+        a.arg = n
+    if ren:
+        for node in ast.walk(fn):
+            if isinstance(node, ast.Name) and node.id in ren:
+                node.id = ren[node.id].id
+    for _round in range(4):          # aliases of aliases
+        values, bad = {}, set(canon_params)
+        for node in ast.walk(fn):
+            if isinstance(node, ast.Assign):
+                for t in node.targets:
+                    if isinstance(t, ast.Name):
+                        values.setdefault(t.id, set()).add(ast.dump(node.value))
+                        values.setdefault("\0" + t.id, []).append(node.value)
+                    else:
+                        for n in ast.walk(t):
+                            if isinstance(n, ast.Name) and isinstance(n.ctx, ast.Store):
+                                bad.add(n.id)
+            elif isinstance(node, (ast.AugAssign, ast.AnnAssign)):
+                for n in ast.walk(node.target):
+                    if isinstance(n, ast.Name):
+                        bad.add(n.id)
+            elif isinstance(node, (ast.For, ast.comprehension)):
+                for n in ast.walk(node.target):
+                    if isinstance(n, ast.Name):
+                        bad.add(n.id)
+            elif isinstance(node, (ast.With,)):
+                for it in node.items:
+                    if it.optional_vars is not None:
+                        for n in ast.walk(it.optional_vars):
+                            if isinstance(n, ast.Name):
+                                bad.add(n.id)
+            elif isinstance(node, ast.ExceptHandler) and node.name:
+                bad.add(node.name)
+        mapping = {}
+        for k, v in values.items():
+            if k.startswith("\0") or k in bad or len(v) != 1:
+                continue
+            val = values["\0" + k][0]
+            # the value must not read the local itself, nor a local that is re-assigned with several values
+            reads = {n.id for n in ast.walk(val) if isinstance(n, ast.Name)}
+            if k in reads or any(len(values.get(r, ())) > 1 for r in reads if not r.startswith("\0")):
+                continue
+            if any(r in bad and r in values for r in reads):   # reads a parameter / loop variable that is re-assigned
+                continue
+            mapping[k] = val
+        if not mapping:
+            break
+        fn = _Subst(mapping).visit(fn)
+    ast.fix_missing_locations(fn)
+    return fn
+
+
+def _strip_module(src):
+    """`mod.Colorizer.ansify(x)` and `Colorizer.ansify(x)` alike (import form)"""
+    import re as _re
+    return _re.sub(r"\b(?:\w+\.)+(Colorizer\.)", r"\1", src)
+
+
+def _method_or_function(tree, cls_name, name):
+    name = name.split(".")[-1]
+    try:
+        return find_func(tree, name, cls=cls_name), True
+    except Unsupported:
+        return find_func(tree, name), False
 
 
 def generate_emit():
     """Generated/MarkupEmit.lean: (a) what the memoised dynamic-format cache of a colourising handler is keyed on
     and what the memoised function computes, (b) where `Handler.emit` drops a coloured message that no longer
-    is record["message"]."""
+    is record["message"], (c) `Logger.level` updates every handler.  Shapes are taken modulo renaming of locals
+    and parameters, single-value local aliases, and `if a: if b:` vs `if a and b:`."""
     errors = []
     body = "namespace Markup.GenEmit\n\n"
     try:
         tree, _ = parse_module("_handler.py")
-        emit_fn = find_func(tree, "emit", cls="Handler")
-        # (a) second argument of every two-argument call of the memoised function, resolved through the local
-        # assignment that precedes it in the same block
+        EP = ["self", "record", "level_id", "from_decorator", "is_raw", "colored_message"]
+        emit_fn = _normalise(find_func(tree, "emit", cls="Handler"), EP)
+        # (a) both arguments of every two-argument call of the memoised function (locals inlined)
         keys = []
-        for blk in _blocks(emit_fn):
-            for i, st in enumerate(blk):
-                for node in ast.walk(st) if not isinstance(st, (ast.If, ast.Try, ast.With, ast.For, ast.While)) else []:
-                    if isinstance(node, ast.Call) and ast.unparse(node.func) == "self._memoize_dynamic_format" \
-                            and len(node.args) == 2 and not node.keywords:
-                        a = node.args[1]
-                        src = ast.unparse(a)
-                        if isinstance(a, ast.Name):
-                            src = _resolve_name(blk, i, a.id) or src
-                        keys.append((ast.unparse(node.args[0]), src))
+        for node in ast.walk(emit_fn):
+            if isinstance(node, ast.Call) and ast.unparse(node.func) == "self._memoize_dynamic_format" \
+                    and len(node.args) == 2 and not node.keywords:
+                keys.append((ast.unparse(node.args[0]), ast.unparse(node.args[1])))
         if not keys:
             raise Unsupported("no two-argument call of self._memoize_dynamic_format in Handler.emit")
         body += "/-- (first, second) argument of every colourising use of the memoised dynamic-format cache in\n"
-        body += "`Handler.emit`, the second resolved through its local assignment -/\n"
+        body += "`Handler.emit`, locals inlined -/\n"
         body += "def dynCacheKeys : List (List Char × List Char) := [%s]\n\n" % ", ".join(
             "(%s, %s)" % (lean_chars(a), lean_chars(b)) for a, b in keys)
-        # the memoised function
-        init = find_func(tree, "__init__", cls="Handler")
-        memo = []
-        for node in ast.walk(init):
-            if isinstance(node, ast.Assign) and ast.unparse(node.targets[0]) == "self._memoize_dynamic_format" \
-                    and isinstance(node.value, ast.Call) and ast.unparse(node.value.func) == "memoize" \
-                    and len(node.value.args) == 1:
-                memo.append(ast.unparse(node.value.args[0]))
-        colored_fn = [m for m in memo if "colored" in m]
-        if len(colored_fn) != 1:
-            raise Unsupported("memoised functions: %r" % (memo,))
-        fname = colored_fn[0].split(".")[-1]
-        fn = find_func(tree, fname)
-        rets = [n for n in ast.walk(fn) if isinstance(n, ast.Return)]
-        if len(rets) != 1 or rets[0].value is None:
-            raise Unsupported("memoised function %s: return shape" % fname)
-        params = [a.arg for a in fn.args.args if a.arg != "self"]
-        body += "/-- parameters and returned expression of the memoised function -/\n"
-        body += "def dynPrepParams : List (List Char) := [%s]\n" % ", ".join(lean_chars(p) for p in params)
-        body += "def dynPrepReturn : List Char := %s\n\n" % lean_chars(ast.unparse(rets[0].value))
+        # the memoised functions: every `memoize(f)` anywhere in class Handler; the colourising one is the one
+        # whose result calls `.colorize(`
+        cls = find_class(tree, "Handler")
+        memo = set()
+        for node in ast.walk(cls):
+            if isinstance(node, ast.Call) and ast.unparse(node.func).split(".")[-1] == "memoize" and len(node.args) == 1 \
+                    and isinstance(node.args[0], (ast.Name, ast.Attribute)):
+                memo.add(ast.unparse(node.args[0]))
+        found = []
+        for m in sorted(memo):
+            f, is_method = _method_or_function(tree, "Handler", m)
+            npar = len(f.args.args)
+            canon = (["self"] if is_method else []) + ["format_", "ansi_level"][: npar - (1 if is_method else 0)]
+            f = _normalise(f, canon)
+            rets = [n for n in ast.walk(f) if isinstance(n, ast.Return) and n.value is not None]
+            if len(rets) != 1:
+                raise Unsupported("memoised function %s: return shape" % m)
+            src = _strip_module(ast.unparse(rets[0].value))
+            if ".colorize(" in src:
+                found.append(([c for c in canon if c != "self"], src))
+        if len(found) != 1:
+            raise Unsupported("memoised colourising functions: %r of %r" % (found, sorted(memo)))
+        body += "/-- parameters (canonical names by position) and returned expression (locals inlined) of the memoised\n"
+        body += "colourising function -/\n"
+        body += "def dynPrepParams : List (List Char) := [%s]\n" % ", ".join(lean_chars(p) for p in found[0][0])
+        body += "def dynPrepReturn : List Char := %s\n\n" % lean_chars(found[0][1])
 
-        # (b) the drop rule
+        # (b) the drop rule: an UNCONDITIONAL statement of emit's try block (that is its content), after the
+        # statements that call the user's filter and format function (wherever inside those statements)
         tries = [n for n in emit_fn.body if isinstance(n, ast.Try)]
         if len(tries) != 1:
             raise Unsupported("Handler.emit: expected one try block")
         top = tries[0].body
-        want = "colored_message is not None and colored_message.stripped != record['message']"
-        i_drop = i_filter = i_dyn = None
-        for i, st in enumerate(top):
-            if isinstance(st, ast.If):
-                t = ast.unparse(st.test)
-                if t == want and len(st.body) == 1 and ast.unparse(st.body[0]) == "colored_message = None" and not st.orelse:
-                    i_drop = i
-                if t == "self._filter is not None":
-                    i_filter = i
-                if t == "self._is_formatter_dynamic" and i_dyn is None and "self._formatter(record)" in ast.unparse(st):
-                    i_dyn = i
+
+        def is_drop(st):
+            if not (isinstance(st, ast.If) and not st.orelse and len(st.body) == 1
+                    and ast.unparse(st.body[0]) == "colored_message = None"):
+                return False
+            parts = st.test.values if isinstance(st.test, ast.BoolOp) and isinstance(st.test.op, ast.And) else [st.test]
+            srcs = sorted(ast.unparse(x) for x in parts)
+            cmp_ok = {"colored_message.stripped != record['message']", "record['message'] != colored_message.stripped"}
+            return len(srcs) == 2 and "colored_message is not None" in srcs and any(x in cmp_ok for x in srcs)
+
+        def calls(st, what):
+            return any(isinstance(n, ast.Call) and ast.unparse(n) == what for n in ast.walk(st))
+
+        i_drop = next((i for i, st in enumerate(top) if is_drop(st)), None)
+        i_filter = next((i for i, st in enumerate(top) if calls(st, "self._filter(record)")), None)
+        i_dyn = next((i for i, st in enumerate(top) if calls(st, "self._formatter(record)")), None)
         if i_filter is None or i_dyn is None:
-            raise Unsupported("Handler.emit: filter / dynamic-format statements not found at top level")
+            raise Unsupported("Handler.emit: calls of the filter / format function not found in the try block")
         ncmp = sum(1 for n in ast.walk(emit_fn) if isinstance(n, ast.Compare) and ".stripped" in ast.unparse(n))
         ltree, _ = parse_module("_logger.py")
         log_fn = find_func(ltree, "_log", cls="Logger")
@@ -259,26 +368,36 @@ def generate_emit():
         body += "/-- … and it is the only comparison with `.stripped` in `emit`; `Logger._log` has none -/\n"
         body += "def emitStrippedCompares : Nat := %d\ndef logStrippedCompares : Nat := %d\n\n" % (ncmp, nlog)
 
-        # (c) Logger.level(): inside `with self._core.lock:` the ANSI prefix is stored and then EVERY handler's
+        # (c) Logger.level(): inside the locked block the ANSI prefix is stored and then EVERY handler's
         # update_format(name) is called, as unconditional direct statements of the block
-        lvl_fn = find_func(ltree, "level", cls="Logger")
+        lvl_fn = _normalise(find_func(ltree, "level", cls="Logger"), ["self", "name", "no", "color", "icon"])
         withs = [n for n in ast.walk(lvl_fn) if isinstance(n, ast.With)
                  and any("levels_ansi_codes" in ast.unparse(x) for x in n.body)]
-        if len(withs) != 1:
-            raise Unsupported("Logger.level: the block storing levels_ansi_codes[name]")
+        if len(withs) != 1 or "lock" not in ast.unparse(withs[0].items[0].context_expr):
+            raise Unsupported("Logger.level: the locked block storing levels_ansi_codes[name]")
         blk = withs[0].body
         i_ansi = i_upd = None
+        ansi_src = None
         for i, st in enumerate(blk):
             if isinstance(st, ast.Assign) and ast.unparse(st.targets[0]) == "self._core.levels_ansi_codes[name]":
                 i_ansi = i
+                val = st.value
+                if isinstance(val, ast.Name):
+                    # straight-line resolution: the last assignment to that local before the locked block, among
+                    # the direct statements of the function (its value may read the re-assigned parameter `color`,
+                    # which is why the global alias inlining leaves it alone)
+                    k = next((j for j, x in enumerate(lvl_fn.body) if x is withs[0]), None)
+                    if k is not None:
+                        for x in reversed(lvl_fn.body[:k]):
+                            if isinstance(x, ast.Assign) and len(x.targets) == 1 and isinstance(x.targets[0], ast.Name) \
+                                    and x.targets[0].id == val.id:
+                                val = x.value
+                                break
+                ansi_src = _strip_module(ast.unparse(val))
             if isinstance(st, ast.For) and ast.unparse(st.iter) == "self._core.handlers.values()" and not st.orelse \
                     and len(st.body) == 1 and ast.unparse(st.body[0]) == "%s.update_format(name)" % ast.unparse(st.target):
                 i_upd = i
         nupd = sum(1 for n in ast.walk(lvl_fn) if isinstance(n, ast.Call) and ast.unparse(n.func).endswith(".update_format"))
-        ansi_src = None
-        for n in ast.walk(lvl_fn):
-            if isinstance(n, ast.Assign) and ast.unparse(n.targets[0]) == "ansi":
-                ansi_src = ast.unparse(n.value)
         body += "/-- `for handler in self._core.handlers.values(): handler.update_format(name)` is an unconditional\n"
         body += "direct statement of the locked block of `Logger.level` … -/\n"
         body += "def levelUpdatesEveryHandler : Bool := %s\n" % ("true" if i_upd is not None else "false")
